@@ -171,12 +171,12 @@ Proof.
   destruct (is_topic_kind k && negb (pattern_ok (b_key b))); [discriminate|].
   unfold spec_mode. rewrite (s_xm c S) in W. unfold str_x_match in W.
   destruct (lookup [120; 45; 109; 97; 116; 99; 104] t) as [v|].
-  - destruct v; try discriminate.
-    rewrite (s_all c S), (s_any c S) in W. unfold str_all, str_any in W.
-    destruct (bytes_eqb s [97; 108; 108]) eqn:Ea.
-    + apply bytes_eqb_spec in Ea. subst s. inversion W as [W']. rewrite <- W' at 1. simpl. reflexivity.
-    + destruct (bytes_eqb s [97; 110; 121]); [|discriminate].
-      inversion W as [W']. rewrite <- W' at 1. simpl. reflexivity.
+  - rewrite (s_all c S), (s_any c S) in W. unfold str_all, str_any in W. cbv zeta in W.
+    destruct v; try discriminate; try (destruct (c_xmatch_bytes c); [|discriminate]);
+      (destruct (bytes_eqb s [97; 108; 108]) eqn:Ea;
+       [ apply bytes_eqb_spec in Ea; subst s; inversion W as [W']; rewrite <- W' at 1; simpl; reflexivity
+       | destruct (bytes_eqb s [97; 110; 121]); [|discriminate];
+         inversion W as [W']; rewrite <- W' at 1; simpl; reflexivity ]).
   - rewrite (s_def c S) in W. inversion W as [W']. rewrite <- W' at 1. simpl. reflexivity.
 Qed.
 
@@ -311,11 +311,36 @@ Proof.
   destruct (is_topic_kind k && negb (pattern_ok (b_key b))); [discriminate|].
   destruct (b_args b) as [t|].
   - destruct (lookup (c_x_match c) t) as [v|].
-    + destruct v; try discriminate.
-      destruct (bytes_eqb s (c_all c)); [inversion W as [W']; rewrite <- W' at 1; reflexivity|].
-      destruct (bytes_eqb s (c_any c)); [inversion W as [W']; rewrite <- W' at 1; reflexivity | discriminate].
+    + cbv zeta in W. destruct v; try discriminate; try (destruct (c_xmatch_bytes c); [|discriminate]);
+        (destruct (bytes_eqb s (c_all c)); [inversion W as [W']; rewrite <- W' at 1; reflexivity|];
+         destruct (bytes_eqb s (c_any c)); [inversion W as [W']; rewrite <- W' at 1; reflexivity | discriminate]).
     + inversion W as [W']; rewrite <- W' at 1; reflexivity.
   - inversion W as [W']; rewrite <- W' at 1; reflexivity.
+Qed.
+
+(* NewBinding accepts every binding AMQP allows a client to make: a pattern whose wildcards are
+   whole words, and an x-match that is absent or the string (short or long) all / any *)
+Definition xmatch_allowed (args : option table) : Prop :=
+  match args with
+  | None => True
+  | Some t => match lookup str_x_match t with
+              | None => True
+              | Some (VStr s) | Some (VBytes s) => s = str_all \/ s = str_any
+              | Some _ => False
+              end
+  end.
+
+Lemma new_binding_accepts : forall c q ex key args topic, sane c -> c_xmatch_bytes c = true ->
+  (topic = true -> pattern_ok key = true) -> xmatch_allowed args ->
+  exists b, new_binding c q ex key args topic = Some b.
+Proof.
+  intros c q ex key args topic S Hb Hp Hx. unfold new_binding.
+  assert (topic && negb (pattern_ok key) = false) as E.
+  { destruct topic; [rewrite Hp by reflexivity|]; reflexivity. }
+  rewrite E. destruct args as [t|]; [|eexists; reflexivity].
+  unfold xmatch_allowed in Hx. rewrite (s_xm c S), (s_all c S), (s_any c S), Hb. cbv zeta.
+  destruct (lookup str_x_match t) as [v|]; [|eexists; reflexivity].
+  destruct v; try contradiction; destruct Hx as [Hx|Hx]; subst s; eexists; reflexivity.
 Qed.
 
 Theorem route_eq_spec : forall c, cfg_sane c = true ->
@@ -929,3 +954,8 @@ Proof.
       * rewrite (NoDup_count_occ (list_eq_dec N.eq_dec)) in Hn. apply Hn.
       * intro H1. apply in_app_iff. left. apply (count_occ_In (list_eq_dec N.eq_dec)). lia.
 Qed.
+
+Corollary wellformed_binding_accepted : forall c q ex key args topic, cfg_sane c = true -> c_xmatch_bytes c = true ->
+  (topic = true -> pattern_ok key = true) -> xmatch_allowed args ->
+  exists b, new_binding c q ex key args topic = Some b.
+Proof. intros c q ex key args topic Hc. apply new_binding_accepts. apply cfg_sane_sane. assumption. Qed.
